@@ -97,6 +97,15 @@ def cases(ctx):
     for h in out:
         ctx.count('B', h['B']); ctx.count('kind', json.dumps(h['kind'])); ctx.count('variant', h['variant'])
         ctx.count('shuffle', bool(h['ops'][0].get('shuffle') or h['ops'][1].get('shuffle')))
+    # partial reaps into a Harvester / Sampler during whose sync another worker finishes the outstanding batch
+    # ("by default deletes nothing so growing can continue"): the scenario runner is C12's
+    for kind in ('harvester', 'sampler'):
+        for cu in (None, False, True):
+            for n, bs in ((5, 2), (6, 4)):
+                out.append({'fam': 'farmer', 'c': {'kind': kind, 'stage': 'finishing', 'clean_up': cu, 'allow_incomplete': True,
+                                                   'wait': False, 'n': n, 'bs': bs, 'shuffle': 0 if n == 5 else 5,
+                                                   'engine': 'joblib' if kind == 'harvester' else 'pickle'}})
+                ctx.count('variant', 'farmer-finishing')
     return out
 
 
@@ -104,14 +113,23 @@ search_cases = cases
 
 
 def run_real(h, ctx):
+    if h.get('fam') == 'farmer':
+        from props import c12
+        return c12.run_real(h['c'], ctx)
     return {'obs': crops.run_history(h, ctx)}
 
 
 def model_request(h, obs):
+    if h.get('fam') == 'farmer':
+        from props import c12
+        return c12.model_request(h['c'], obs)
     return crops.history_request(h)
 
 
 def compare(h, obs, rep):
+    if h.get('fam') == 'farmer':
+        from props import c12
+        return c12.compare(h['c'], obs, rep)
     return crops.compare_history(h, obs['obs'], rep)
 
 
@@ -125,6 +143,9 @@ def _missing(x):
 
 def oracle(h, obs):
     if 'harness_exc' in obs: return None
+    if h.get('fam') == 'farmer':
+        from props import c12
+        return c12.oracle(h['c'], obs)
     o = obs['obs']
     ops = h['ops']
     for j in range(3):
